@@ -223,6 +223,7 @@ def differential(ctx, plan, only_job=None, cfg_override=None, label="run"):
         outs = list(ex.map(lambda t: run_one(ctx, t[1], t[3], t[4]), tasks))
     res = {(t[0], t[1].name, t[2]): o for t, o in zip(tasks, outs)}
     ctx.tally(f"{label}.cli_runs", len(tasks))
+    ctx.log(f"{label}: {len(tasks)} CLI runs of {sum(len(e[4]) for e in scns)} jobs in {len(scns)} scenarios done")
 
     cases, meta = [], []
     for si, (kind, seed, params, d, entry) in enumerate(scns):
@@ -558,6 +559,7 @@ def run(ctx):
         [],
     ] + [gen_read_set(ctx.rng) for _ in range(ctx.n(400, 8000))]
     raw, bad = check_sort(ctx, sets)
+    ctx.log(f"L2 ReadSet.sort: {len(sets)} read sets x 4 insertion orders, {len(bad)} disagreeing")
     for orders, outs in raw[:2]:
         ctx.sample({"reads_inserted": view(orders[0]), "ReadSet.sort": outs[0]})
     if bad:
@@ -576,12 +578,14 @@ def run(ctx):
     peds = [(["kid", "dad", "mum", "other"], [("kid", "dad", "mum")], [])] + \
            [gen_pedigree(ctx.rng) for _ in range(ctx.n(150, 3000))]
     fraw, fbad = check_families(ctx, peds)
+    ctx.log(f"L2 setup_families: {len(peds)} pedigrees x 3 orders, {len(fbad)} disagreeing")
     if fbad:
         ctx.disagreements_checked += len(fbad)
         ctx.l2_disagreement("families_sorted (union-find + sorted items) = sorted(setup_families(..)[0].items()) (L2)",
                             [{"samples": fraw[i][0], "trios": fraw[i][1], "skipped_lines": fraw[i][2]} for i in fbad])
 
     wraw, wbad = check_writer(ctx, ctx.n(6, 60))
+    ctx.log(f"L2 writer: {len(wraw)} records, {len(wbad)} disagreeing")
     if wbad:
         ctx.disagreements_checked += len(wbad)
         ctx.l2_disagreement("per-sample updates of PhasedVcfWriter.write commute (L2)",
